@@ -49,6 +49,8 @@ var hostileFixed = []string{
 	"a equ b\nb equ a\n;assert a\nmov a, b\n",
 	"a equ a\n;assert a\n",
 	"a equ b b\nb equ c c\nc equ d d\nd equ 1\ndat a\n",
+	"x equ ; nothing\ndat x\n",
+	"x equ;c\ny equ x\ndat y, x\n",
 	"i for q\ndat i\nrof\n",
 	"i for 1/0\ndat i\nrof\n",
 	"i for 2\ndat i\nrof\ndat 1 = 2\n",
